@@ -20,6 +20,10 @@ CHECKS = {
    technique="property-based testing of a row-multiset invariant on generated re-derivation-heavy programs, serial and parallel with schedule perturbation",
    text="Programs built so that the same tuple or lattice key is derived many times (duplicate rules, several heads into one relation, projections, inputs that are also derivable, caller duplicates) are run serially and in parallel pools with perturbation between the presence check and the insertion; the dumped rows of every relation must be exactly the caller's rows plus one row per newly derived tuple, one row per lattice key.",
    note="Trusted base as for C01; thread interleavings are sampled, not enumerated."),
+ "C13": dict(engine="progfuzz", level="exploration", design="4/C13",
+   technique="stateful (model-based) property testing: generated run()/push histories over generated programs against the model 'fresh run on everything pushed so far'",
+   text="Operation sequences run() / push(tuple into any plain relation) over generated programs (serial and ascent_par!) are interpreted against the compiled program and against a model (the multiset of all pushed facts); after every run() the relations must equal the reference evaluator's result on the model, and consecutive runs must change nothing. Histories shrink as one proptest value.",
+   note="Trusted base as for C01. Monotone re-run is only demanded for programs without negation / aggregation and without rules that copy a lattice value into a plain relation (a copy of an older value legitimately stays behind)."),
  "C03": dict(engine="progfuzz", level="exploration", design="4/C03",
    technique="property-based differential testing of generated monotone lattice programs against a reference least-fixed-point evaluator",
    text="Generated monotone lattice programs over every shipped lattice type are compiled and run on generated weighted graphs; each lattice relation must hold exactly one row per derivable key with the reference least-fixed-point value, and relations derived from lattice values must match."),
